@@ -31,7 +31,8 @@ def emptyElseIfs (sp : Span) (els : OptBlock) : List ElseIf → List Diag
         | [] => match els with
           | .some _ => elseTok sp els
           | .none => sp.last
-      [{ code := "empty_if", primary := ⟨esp.first, next⟩, endAtStart := true, msg := msgElseIf }]
+      -- the label ends at the start of token `next`
+      [{ code := "empty_if", primary := ⟨esp.first, next - 1⟩, msg := msgElseIf }]
      else []) ++ emptyElseIfs sp els rest
 
 def emptyElse (sp : Span) : OptBlock → List Diag
